@@ -1264,7 +1264,12 @@ impl AttributeValue {
             }
             AttributeValue::FileIndex(val) => {
                 debug_assert_form!(constants::DW_FORM_udata);
-                uleb128_size(val.map(|id| id.raw(unit.version())).unwrap_or(0))
+                // The index is interpreted by the unit's line program, which may
+                // use an older version than the unit itself.
+                uleb128_size(
+                    val.map(|id| id.raw(unit.line_program.version()))
+                        .unwrap_or(0),
+                )
             }
         })
     }
@@ -1523,7 +1528,10 @@ impl AttributeValue {
             }
             AttributeValue::FileIndex(val) => {
                 debug_assert_form!(constants::DW_FORM_udata);
-                w.write_uleb128(val.map(|id| id.raw(unit.version())).unwrap_or(0))?;
+                w.write_uleb128(
+                    val.map(|id| id.raw(unit.line_program.version()))
+                        .unwrap_or(0),
+                )?;
             }
         }
         Ok(())
